@@ -60,6 +60,15 @@ def State.pending (s : State) : List Byte := s.buf ++ s.rest
 
 abbrev Res := Except Err (List Byte)
 
+instance : DecidableEq Res := fun a b =>
+  match a, b with
+  | .ok x, .ok y =>
+    if h : x = y then isTrue (by rw [h]) else isFalse (by intro h'; cases h'; exact h rfl)
+  | .error x, .error y =>
+    if h : x = y then isTrue (by rw [h]) else isFalse (by intro h'; cases h'; exact h rfl)
+  | .ok _, .error _ => isFalse (by intro h; cases h)
+  | .error _, .ok _ => isFalse (by intro h; cases h)
+
 /-- one `await self.receive_stream.receive(max)` -/
 def srcRecv (s : State) (max : Nat) : Except Err (List Byte × State) :=
   if s.closed then .error .closed
